@@ -255,7 +255,51 @@ def canon_tree_out(o, files):
     return o
 
 
+def replay(path):
+    """./check C11 --replay file : re-run one recorded case (40 repetitions in each of 8 fresh processes)"""
+    import sys
+    d = json.load(open(path))
+    case = d.get("replay", d)
+    if "files" in case:
+        perms = list(itertools.permutations(case["files"]))[:24]
+        reqs = [{"files": [list(f) for f in pm], "format": False, "sig": False} for pm in perms] * 4
+        outs = {}
+        for b, ans in zip([reqs[i::8] for i in range(8)], run_procs("c11_tree", [reqs[i::8] for i in range(8)])):
+            for r, a in zip(b, ans):
+                outs.setdefault(json.dumps(canon_tree_out(a, r["files"]), sort_keys=True), 0)
+                outs[json.dumps(canon_tree_out(a, r["files"]), sort_keys=True)] += 1
+        print(json.dumps({"variants": [{"n": n, "output": o[:500]} for o, n in outs.items()]}, indent=1))
+        print("REPRODUCED" if len(outs) > 1 else "NOT REPRODUCED"); sys.exit(0)
+    if "steps" in case or "history" in case:
+        steps = case.get("steps") or case.get("history")
+        ans = run_procs("c11_hist", [[{"steps": steps}]])[0][0]
+        print(json.dumps(ans, indent=1)[:3000]); sys.exit(0)
+    src = case.get("src")
+    if src is None:
+        print("replay file names a broken obligation, not an input: %s" % json.dumps(case)[:600]); sys.exit(1)
+    rq_ = dict(case.get("options") or {}, src=src)
+    rq_.setdefault("format", False); rq_.setdefault("sig", False)
+    obs = Obs()
+    for pi, ans in enumerate(run_procs("c11_rep", [[{"req": rq_, "n": 40}] for _ in range(8)])):
+        for o in ans[0].get("outs", []):
+            obs.add(rq_, o, "p%d" % pi)
+    rep = False
+    for key, comps in obs.d.items():
+        for comp, variants in comps.items():
+            print("%s: %d variant(s)" % (comp, len(variants)))
+            if len(variants) > 1:
+                rep = True
+                dec = [json.loads(v) for v in variants]
+                for v in dec[:6]:
+                    print("    " + json.dumps(v)[:400])
+                print("    class: %s" % classify_variation(src, comp, dec))
+    print("REPRODUCED" if rep else "NOT REPRODUCED")
+    sys.exit(0)
+
+
 def run():
+    if os.environ.get("VERIF_REPLAY"):
+        return replay(os.environ["VERIF_REPLAY"])
     ck = Check("C11", level="proof")
     info = gen_sites_state.generate()
     # the Coq table must be the one derived from the python table (one source of truth)
